@@ -2,7 +2,7 @@ import AquaVerif.Proofs.SoilTexture
 import AquaVerif.Proofs.RealInstance
 /-
 Non-vacuity of the law structures of `Proofs/SoilTexture.lean`: the real logarithm and power
-(`realFn` of `Proofs/RealInstance.lean`: `pow x y = exp (y · log x)`, roundings = identity) satisfy
+(`realFn` of `Proofs/RealInstance.lean`: `pow = Real.rpow`, roundings = identity) satisfy
 `TexPowLaws`, `TexLogPowLaws`, `TexRoundLaws`; the main lemmas instantiated at the reals carry no law
 hypothesis.  (Exact half-even rounding on ℚ satisfies `TexRoundLaws` too: `texRoundLaws_FqTex`.)
 -/
@@ -10,7 +10,7 @@ hypothesis.  (Exact half-even rounding on ℚ satisfies `TexRoundLaws` too: `tex
 namespace Aqua
 open Aqua.Response
 
-theorem texPowLaws_real : TexPowLaws realFn := ⟨fun _ _ _ => Real.exp_pos _⟩
+theorem texPowLaws_real : TexPowLaws realFn := ⟨fun _ y hx => realFn_pow_pos hx y⟩
 
 theorem texRoundLaws_real : TexRoundLaws realFn :=
   ⟨fun x => by show x - 1 / 2 ≤ x; linarith, fun x => by show x ≤ x + 1 / 2; linarith,
@@ -19,7 +19,7 @@ theorem texRoundLaws_real : TexRoundLaws realFn :=
 theorem texLogPowLaws_real : TexLogPowLaws realFn where
   log_mono := fun x y hx hxy => Real.log_le_log hx hxy
   pow_ge_cube := fun x y hx hx1 hy => by
-    show x * x * x ≤ Real.exp (y * Real.log x)
+    rw [realFn_pow_of_pos hx]
     have h3 : x * x * x = Real.exp (3 * Real.log x) := by
       have := Real.exp_nat_mul (Real.log x) 3
       rw [Real.exp_log hx] at this
